@@ -121,8 +121,7 @@ def sequences(t, rng):
             s = "".join(tup)
             if "I" in s:
                 seqs.append((s, True))
-    # resize / slot reuse: 5 inserts cross the 4-bucket table; a remove followed by an insert reuses the freed slot
-    seqs += [("IIIIIG", False), ("IIRIG", False), ("IIIIIRIGG", False)]
+    # (resize and slot reuse are covered by the concrete-key scenarios in run(): fully symbolic sequences of that length exceed the path bound)
     return seqs
 
 
@@ -147,7 +146,10 @@ def run(outcome, _harnesses):
     for cname, ops, is_set, pattern in (
             ("chain_map", "IIIRIIGGGGG", False, [0, "v", 4, "v", 1, "v", 1, 8, "v", 2, "v", 0, 4, 8, 2, "p"]),
             ("chain_map_remove_head", "IIIRIIGGGG", False, [0, "v", 4, "v", 8, "v", 8, 12, "v", 1, "v", 0, 4, 12, "p"]),
-            ("chain_set", "IIIRIICCCC", True, [0, 4, 1, 1, 8, 2, 0, 4, 8, "p"])):
+            ("chain_set", "IIIRIICCCC", True, [0, 4, 1, 1, 8, 2, 0, 4, 8, "p"]),
+            # six inserts cross the resize of the initial 4-bucket table; then a remove, a re-insert and look-ups
+            ("resize_map", "IIIIIIRIGGGG", False, [0, "v", 1, "v", 2, "v", 3, "v", 4, "v", 5, "v", 2, 9, "v", 0, 5, 9, "p"]),
+            ("resize_set", "IIIIIIRICCC", True, [0, 1, 2, 3, 4, 5, 4, 12, 5, 12, "p"])):
         inner = "vf_%s_inner" % cname
         f, nparams = gen_function(inner, ops, is_set)
         assert nparams == len(pattern), (cname, nparams, len(pattern))
@@ -205,8 +207,8 @@ def run(outcome, _harnesses):
         entry["paths"] = len(done)
         verdict = "holds"
         for st in done:
-            if st.status == "dead":
-                continue
+            if st.status in ("dead", "bound"):
+                continue  # a path cut off by the step / path bound is reported through bound_hit, it is not a verdict
             n_obl += 1
             cond = z3.And(*st.cond) if st.cond else z3.BoolVal(True)
             s = z3.Solver()
